@@ -3,6 +3,8 @@ import Arc.Model.C21Current
 import Arc.Generated.C21
 import Arc.Proofs.C21.Full
 import Arc.Proofs.C21.Auth
+import Arc.Proofs.C21.After
+import Arc.Model.C21Replay
 /-!
 # C21 — revoked, deleted or rotated token values stop authenticating immediately
 
@@ -76,7 +78,7 @@ def FullClaim (cfg : Cfg) : Prop :=
     Inv cfg s0 → (cfg.serialDB = true → ConnOK s0) → s0.m.pc = .start →
     run cfg s0 pre = some s1 → s1.m.pc = .done →
     s1.vs[i]? = some v → v.pc = .start → v.res = none →
-    (∀ nv, s0.m.kind = .rotate nv → v.val ≠ nv) →
+    (∀ nv, s0.m.kind = .rotate nv → v.val ≠ nv) → (∀ e, s0.m.kind ≠ .setexp e) →
     run cfg s1 post = some s2 → s2.vs[i]? = some v' → v'.res ≠ some true
 
 /-- **C21_full.** Holds whenever the source has at least one of the two protections: the serialising
@@ -85,9 +87,9 @@ interleavings. Second hypothesis: the cache-hit path does not write the cache af
 lock (`hitTouch = false`; `C21_full_touch_witness` shows it is needed even with the single connection). -/
 theorem C21_full (cfg : Cfg) (hcfg : cfg.serialDB = true ∨ cfg.genGuard = true)
     (hnt : cfg.hitTouch = false) : FullClaim cfg := by
-  intro s0 s1 s2 pre post i v v' hI hC hm0 h1 hdone hv hstart hres hold h2 hv'
+  intro s0 s1 s2 pre post i v v' hI hC hm0 h1 hdone hv hstart hres hold hkind h2 hv'
   have hI1 := (inv_conn_run hcfg hnt pre s0 s1 hI hC h1).1
-  have hP0 : PostOK s0 v.val := ⟨hold, fun h => absurd hm0 h⟩
+  have hP0 : PostOK s0 v.val := ⟨⟨hold, hkind⟩, fun h => absurd hm0 h⟩
   have hP1 := postOK_run pre s0 s1 hP0 h1
   have hL : Late v.val v := ⟨rfl, by rw [hres]; simp, Or.inl hstart⟩
   obtain ⟨v'', hv'', hL''⟩ := late_run hnt post s1 s2 v hI1 hdone hP1 hv hL h2
@@ -156,7 +158,7 @@ theorem C21_full_witness : ¬ FullClaim cfgUnprotected := by
     rw [hv'] at hr
     simp only [Option.map_some, Option.some.injEq] at hr
     exact h sA s1 s2 staleInsertPre staleInsertPost 1 { val := 1 } v' hI (fun hh => by simp [cfgUnprotected] at hh)
-      rfl hs1 hd hv1 rfl rfl (fun nv hk => by simp [sA] at hk) hs2 hv' hr
+      rfl hs1 hd hv1 rfl rfl (fun nv hk => by simp [sA] at hk) (fun e hk => by simp [sA] at hk) hs2 hv' hr
 
 /-! ### a cache-hit path that writes the cache defeats the single connection -/
 
@@ -197,7 +199,7 @@ theorem C21_full_touch_witness : ¬ FullClaim cfgTouch := by
     rw [hv'] at hr
     simp only [Option.map_some, Option.some.injEq] at hr
     exact h sT s1 s2 _ _ 1 { val := 1 } v' hI (fun _ => connOK_cold hat)
-      rfl hs1 hd hv1 rfl rfl (fun nv hk => by simp [sT] at hk) hs2 hv' hr
+      rfl hs1 hd hv1 rfl rfl (fun nv hk => by simp [sT] at hk) (fun e hk => by simp [sT] at hk) hs2 hv' hr
 
 /-! ## `C21_partial` — no assumption on the source facts -/
 
@@ -256,10 +258,10 @@ theorem C21_partial (cfg : Cfg) (hnt : cfg.hitTouch = false)
     (hquiet : quietAtUpdate cfg s0 pre = true)
     (h1 : run cfg s0 pre = some s1) (hdone : s1.m.pc = .done)
     (hv : s1.vs[i]? = some v) (hstart : v.pc = .start) (hres : v.res = none)
-    (hold : ∀ nv, s0.m.kind = .rotate nv → v.val ≠ nv)
+    (hold : ∀ nv, s0.m.kind = .rotate nv → v.val ≠ nv) (hkind : ∀ e, s0.m.kind ≠ .setexp e)
     (h2 : run cfg s1 post = some s2) (hv' : s2.vs[i]? = some v') : v'.res ≠ some true := by
   have hI1 := inv_run_quiet hnt pre s0 s1 hI hquiet h1
-  have hP0 : PostOK s0 v.val := ⟨hold, fun h => absurd hm0 h⟩
+  have hP0 : PostOK s0 v.val := ⟨⟨hold, hkind⟩, fun h => absurd hm0 h⟩
   have hP1 := postOK_run pre s0 s1 hP0 h1
   have hL : Late v.val v := ⟨rfl, by rw [hres]; simp, Or.inl hstart⟩
   obtain ⟨v'', hv'', hL''⟩ := late_run hnt post s1 s2 v hI1 hdone hP1 hv hL h2
@@ -409,6 +411,134 @@ theorem C21_authn_current : ExpiryClaimNow := by
     simp only [Bool.and_eq_true, Bool.not_eq_eq_eq_not, Bool.not_true] at hx
     exact C21_authn_iff _ hx.1 hx.2
   · exact C21_authn_expiry_witness
+
+/-! ## after the mutator returned: every later success is justified by the CURRENT row
+(covers `UpdateToken`/`ApplyUpdateToken` changing `expires_at` — the "has not expired" clause after a
+shortened expiry — as well as revoke/delete/rotate) -/
+
+theorem lateauth_run {cfg : Cfg} {i : Nat} (hx : cfg.hitChecksExpiry = true) (hnt : cfg.hitTouch = false) :
+    ∀ (evs : List Ev) (s s' : State) (v : VThread), Inv cfg s → s.m.pc = .done →
+      s.vs[i]? = some v → LateAuth s.sh.db v → run cfg s evs = some s' →
+      s'.sh.db = s.sh.db ∧ ∃ v', s'.vs[i]? = some v' ∧ LateAuth s'.sh.db v' := by
+  intro evs
+  induction evs with
+  | nil =>
+    intro s s' v _ _ hv hL hr
+    simp only [run, Option.some.injEq] at hr
+    subst hr
+    exact ⟨rfl, v, hv, hL⟩
+  | cons e es ih =>
+    intro s s' v hI hd hv hL hr
+    simp only [run] at hr
+    split at hr
+    · simp at hr
+    · rename_i s1 hs1
+      have hI1 : Inv cfg s1 :=
+        inv_step hnt hI hs1 (Or.inr (Or.inl (fun h => by rw [hd] at h; simp at h)))
+      obtain ⟨hd1, hdb1, v1, hv1, hL1⟩ := lateauth_step hx hI hd hv hL hs1
+      obtain ⟨hdb, h⟩ := ih s1 s' v1 hI1 hd1 hv1 hL1 hr
+      exact ⟨hdb.trans hdb1, h⟩
+
+/-- **C21_authn_after_return.** From any invariant state in which the mutator (ANY kind: revoke, delete,
+rotate, expiry update) has returned, along any interleaving: a verification that had not started
+authenticates only if the row the database holds now — the post-mutation row — is enabled, carries a
+hash of the presented value and is not expired at the verification's own clock reading. Needs the
+cache-hit expiry re-check, a hit path that does not write the cache, and (inside `Inv`) that the mutator
+invalidated the cache (`C21_invalidation_sites`: every mutator, `UpdateToken` included, unconditionally). -/
+theorem C21_authn_after_return (cfg : Cfg) (hx : cfg.hitChecksExpiry = true) (hnt : cfg.hitTouch = false)
+    (s1 s2 : State) (post : List Ev) (i : Nat) (v v' : VThread)
+    (hI : Inv cfg s1) (hdone : s1.m.pc = .done)
+    (hv : s1.vs[i]? = some v) (hstart : v.pc = .start) (hres : v.res = none)
+    (h2 : run cfg s1 post = some s2) (hv' : s2.vs[i]? = some v') (hok : v'.res = some true) :
+    ∃ r, s1.sh.db = some r ∧ r.enabled = true ∧ r.hashOf = v'.val ∧ expired r.expiry v'.now = false := by
+  obtain ⟨hdb, v'', hv'', hL⟩ := lateauth_run hx hnt post s1 s2 v hI hdone hv (Or.inl ⟨hstart, hres⟩) h2
+  rw [hv'] at hv''
+  simp only [Option.some.injEq] at hv''
+  subst hv''
+  rw [hdb] at hL
+  rcases hL with ⟨_, h⟩ | ⟨_, e, _, hg⟩ | ⟨_, h⟩ | ⟨_, h, _⟩ | ⟨_, r, _, hg⟩ | ⟨_, h⟩ | ⟨_, h⟩
+  · rw [h] at hok; simp at hok
+  · exact ⟨e.info, hg⟩
+  · rw [h] at hok; simp at hok
+  · rw [h] at hok; simp at hok
+  · exact ⟨r, hg⟩
+  · rw [h] at hok; simp at hok
+  · exact h hok
+
+/-- **C21_authn_after_return_current.** …for the LTS configured from the current source, from any state
+before the mutation (invariant + connection discipline) through any interleaving `pre` completing it. -/
+theorem C21_authn_after_return_current (ttl maxCache : Nat)
+    (s0 s1 s2 : State) (pre post : List Ev) (i : Nat) (v v' : VThread)
+    (hI : Inv (currentCfg ttl maxCache) s0) (hC : (currentCfg ttl maxCache).serialDB = true → ConnOK s0)
+    (h1 : run (currentCfg ttl maxCache) s0 pre = some s1) (hdone : s1.m.pc = .done)
+    (hv : s1.vs[i]? = some v) (hstart : v.pc = .start) (hres : v.res = none)
+    (h2 : run (currentCfg ttl maxCache) s1 post = some s2) (hv' : s2.vs[i]? = some v')
+    (hok : v'.res = some true) :
+    ∃ r, s1.sh.db = some r ∧ r.enabled = true ∧ r.hashOf = v'.val ∧ expired r.expiry v'.now = false := by
+  have hf := C21_full_applies
+  have ha := C21_authn_applies
+  simp only [Bool.and_eq_true, Bool.or_eq_true, Bool.not_eq_eq_eq_not, Bool.not_true] at hf ha
+  have hI1 := (inv_conn_run hf.1 hf.2 pre s0 s1 hI hC h1).1
+  exact C21_authn_after_return _ ha.1 ha.2 s1 s2 post i v v' hI1 hdone hv hstart hres h2 hv' hok
+
+/-! ## cluster-apply LOG REPLAY (node restart re-applies the Raft log against the persistent row) -/
+
+/-- **C21_replay_create_fact.** In the current source an identical replayed `ApplyCreateToken` returns
+before any write and the INSERT is not an upsert. -/
+theorem C21_replay_create_fact : Arc.Generated.C21.createReplayNoop = true := by decide
+
+/-- **C21_replay_create_inert.** Under that fact a replayed create never changes an existing row. -/
+theorem C21_replay_create_inert (db : Option Row) (r : Row) (h : db ≠ none) :
+    applyEntry true db (.create r) = db := by
+  cases db with
+  | none => exact absurd rfl h
+  | some r0 => simp only [applyEntry]; split <;> rfl
+
+theorem replay_disabled_entry (r : Row) (hr : r.enabled = false) (x : LogEntry) (hx : x ≠ .mutate .delete) :
+    ∃ r', applyEntry true (some r) x = some r' ∧ r'.enabled = false := by
+  cases x with
+  | create c => exact ⟨r, by simp only [applyEntry]; split <;> rfl, hr⟩
+  | mutate k =>
+    cases k with
+    | revoke => exact ⟨_, rfl, rfl⟩
+    | delete => exact absurd rfl hx
+    | rotate nv => exact ⟨_, rfl, hr⟩
+    | setexp e => exact ⟨_, rfl, hr⟩
+
+/-- **C21_replay_revoked_stays.** Under that fact, re-applying ANY log without a delete entry (in
+particular any prefix of the node's own log) over a revoked row never re-enables it: a revoked token is
+rejected after every replayed entry, for every value and clock reading. -/
+theorem C21_replay_revoked_stays (L : List LogEntry) (r : Row) (hr : r.enabled = false)
+    (hnd : ∀ x ∈ L, x ≠ LogEntry.mutate .delete) (val now : Nat) :
+    accepts (applyLog true (some r) L) val now = false := by
+  induction L generalizing r with
+  | nil => simp [applyLog, accepts, hr]
+  | cons x xs ih =>
+    obtain ⟨r', h1, h2⟩ := replay_disabled_entry r hr x (hnd x (by simp))
+    simp only [applyLog, h1]
+    exact ih r' h2 (fun y hy => hnd y (by simp [hy]))
+
+/-- **C21_replay_witness.** With an upsert on the identical-replay branch (seeded change C21-c1):
+create, revoke, restart — the replayed create re-enables the row and the revoked value authenticates. -/
+theorem C21_replay_witness :
+    accepts (applyLog false none [.create rowA, .mutate .revoke]) 1 0 = false ∧
+    accepts (applyLog false (applyLog false none [.create rowA, .mutate .revoke]) [.create rowA]) 1 0 = true := by
+  decide
+
+/-- **C21_replay_window_witness.** What the model (and the real `Apply*Token`, see the harness tags
+`replay-window:*`) does under replay even WITH the fact: a deleted row is re-inserted by the replayed
+create until the replayed delete lands; the value of an intermediate rotation, and a longer earlier
+expiry, come back until the later entry is re-applied. These are outside `C21_replay_revoked_stays`. -/
+theorem C21_replay_window_witness :
+    (accepts (applyLog true none [.create rowA, .mutate .delete]) 1 0 = false ∧
+      accepts (applyLog true (applyLog true none [.create rowA, .mutate .delete]) [.create rowA]) 1 0 = true) ∧
+    (accepts (applyLog true none [.create rowA, .mutate (.rotate 2), .mutate (.rotate 3)]) 2 0 = false ∧
+      accepts (applyLog true (applyLog true none [.create rowA, .mutate (.rotate 2), .mutate (.rotate 3)])
+        [.create rowA, .mutate (.rotate 2)]) 2 0 = true) ∧
+    (accepts (applyLog true none [.create rowA, .mutate (.setexp (some 100)), .mutate (.setexp (some 10))]) 1 60 = false ∧
+      accepts (applyLog true (applyLog true none [.create rowA, .mutate (.setexp (some 100)), .mutate (.setexp (some 10))])
+        [.create rowA, .mutate (.setexp (some 100))]) 1 60 = true) := by
+  decide
 
 /-! ## non-vacuity -/
 
